@@ -169,6 +169,19 @@ static void et_make_cfg(const char *profile, vh_rng_t *g, uint64_t idx)
       c->second_client = 0;
       c->offset_us     = (int[]){ 0, 50, 1000, 10000 }[vh_below(g, 4)];
     }
+    /* same blocks: the fresh-connection/silent-server cases use a per-try timeout above one second, so the
+     * back end's sleep has a seconds part as well as a sub-second part */
+    c->long_timeout = (c->conn_sit == ET_CONN_FRESH) && (c->srv_sit == ET_SIT_SILENT) && ((idx / 27) % 2 == 1);
+    if (c->long_timeout) {
+      c->nsrv          = 1;
+      c->tries         = 1 + (int)vh_below(g, 2);
+      c->timeout_ms    = 1050 + 150 * (int)vh_below(g, 4);
+      c->maxtimeout_ms = c->timeout_ms;
+      c->usevc         = 0;
+      c->inj_density   = 0;
+      c->nclients      = 1;
+      c->second_client = 0;
+    }
   }
 }
 
@@ -575,6 +588,28 @@ static void et_run_case(const char *profile, uint64_t seed, uint64_t idx)
         }
       }
     }
+    if (et_cfg.long_timeout) {
+      /* nothing ever arrives: the request must end by its own timeouts, tries x timeout after it was issued
+       * (maxtimeout = timeout, so there is no back-off); slack 400 ms, confirmed by a second run */
+      int p = atomic_load(&et_timers_probe);
+      if (p >= 0 && atomic_load(&et_reqs[p].cb_count) > 0) {
+        double took   = (double)(atomic_load(&et_reqs[p].t_cb) - atomic_load(&et_reqs[p].t_issue)) / 1e6;
+        double budget = (double)et_cfg.tries * et_cfg.timeout_ms;
+        vh_count("timers.long_timeout.evaluated");
+        if (took > budget + 400) {
+          if (et_backoff_confirming) {
+            vh_violation("timer:et:timeout-late:long-timeout",
+                         "a request to a silent server (tries %d x timeout %d ms, no back-off) was failed %.0f ms after it "
+                         "was issued, %.0f ms late (seen in two consecutive runs of the case); backend=%s",
+                         et_cfg.tries, et_cfg.timeout_ms, took, took - budget,
+                         et_backend_name[et_cfg.backend == 0 ? 0 : et_cfg.backend - 1]);
+          } else {
+            et_backoff_need_confirm = 1;
+            vh_count("timers.long_timeout.late_once_rerun");
+          }
+        }
+      }
+    }
     for (j = 0; j < nw; j++) {
       et_waitrec_t *w  = &et_waits[j];
       uint64_t      t1 = atomic_load(&w->t1), t2 = atomic_load(&w->t2);
@@ -681,7 +716,7 @@ static void et_run_case(const char *profile, uint64_t seed, uint64_t idx)
     if (et_cfg.profile == ET_P_TIMERS && nontrivial) {
       vh_fp_add(vh_fnv_u64(vh_fnv_u64(vh_fnv_u64(vh_fnv_u64(vh_fnv_str(VH_FNV_INIT, "timers"), (uint64_t)bk),
                                                  (uint64_t)et_cfg.conn_sit), (uint64_t)et_cfg.srv_sit),
-                           (uint64_t)(et_cfg.usevc * 2 + et_cfg.burst + et_cfg.backoff * 4)));
+                           (uint64_t)(et_cfg.usevc * 2 + et_cfg.burst + et_cfg.backoff * 4 + et_cfg.long_timeout * 8)));
       snprintf(nm, sizeof(nm), "timers.case.%s.%s.%s", et_backend_name[bk], et_conn_name[et_cfg.conn_sit],
                et_sit_name[et_cfg.srv_sit]);
       vh_count(nm);
